@@ -579,7 +579,20 @@ def m_ref_int_op(ex, st, m, a):
     return ex.binop(name, x, y)
 
 
+def m_split_at_mut(ex, st, m, a):
+    r, k = a
+    n = ex.seq_len(st, r)
+    s0 = r.start.v if r.length is not None else 0
+    if not k.concrete:
+        raise Inconclusive('symbolic split point')
+    if k.v > n:
+        ex.oblige(st, 'panic', False, 'split_at_mut: mid > len', ('leaf', m.group(0)))
+        raise PathDead()
+    return Agg('(tuple)', (Ref(r.addr, r.path, usize(s0), usize(k.v)), Ref(r.addr, r.path, usize(s0 + k.v), usize(n - k.v))))
+
+
 STD_MODELS = [
+    (r'core::slice::<impl \[.+\]>::split_at(_mut)?', m_split_at_mut),
     (r'<&(?:i64|u64|usize|i32|u32) as (?:std::ops::)?(?:Neg|Div<\w+>|Rem<\w+>|Add<\w+>|Sub<\w+>|Mul<\w+>)>::(?P<op>neg|div|rem|add|sub|mul)', m_ref_int_op),
     (r'<\[(u8|u16|u32|u64|usize|i64); (\d+)\] as Default>::default', m_default_array),
     (r'<(u8|u16|u32|u64|usize|i64|i32) as Default>::default', m_default_int),
@@ -1068,4 +1081,5 @@ class UnitGroupDomain:
         return [
             (F + 'mul_assign', h_mul), (F + 'square', h_sq), (F + 'inverse', h_inv), (F + 'frobenius_map', h_frob),
             (F + 'one', h_one), (F + r'pow::<.+>', h_pow), (r'fq12::Fq12::conjugate', h_conj),
+            (r'<' + T + r' as Clone>::clone', lambda ex, st, m, a: deref(ex, st, a[0])),
         ]
